@@ -75,7 +75,10 @@ def recording(base, sink):
         def __init__(self, *a, **k):
             base.__init__(self, *a, **k)
             sink.learners.append(self)
-            sink.cur.append(["new", len(sink.learners), R.fx(k.get("nu", -1), sink.S), R.fx(k.get("rho", -1), sink.S)])
+            # every numeric constructor argument is part of the observation (two runs that differ only in time labels or
+            # queries must create their learners with the same arguments); flat integer codes, -1 = not passed
+            sink.cur.append(["new", len(sink.learners), R.fx(k.get("nu", -1), sink.S), R.fx(k.get("rho", -1), sink.S)]
+                            + [R.fx(k[x], 1 << 10) if isinstance(k.get(x), (int, float)) else -1 for x in ("rounds", "c", "delta", "bound")])
             self._lrec = _learner_rec(self, base, k, sink) if sink.compose else None
 
         def _via(self, kind, fn, ev):
